@@ -200,6 +200,58 @@ fn main() {
     let f = fn(n: int) -> int { n + outer };
     println(f(2));
 }`)},
+	{"cast-two-wrong-fields", Single(`
+fn main() {
+    try {
+        let b: { x: int, y: int, z: int } = '{"x": "s", "y": "t", "z": 1}'.parse_json();
+        println(b);
+    } catch e {
+        println(e.message);
+    }
+    try {
+        let l: [{ x: int, y: int }] = '[{"x": 1, "y": 2}, {"x": "a", "y": "b"}]'.parse_json();
+        println(l);
+    } catch e {
+        println(e.message);
+    }
+    let c = new { p: 1, q: 2, r: 3 };
+    let d = new { p: 9, q: 8, r: 3 };
+    println(c == d, c == c);
+}`)},
+	{"three-module-init-order", Program{Entry: "main", Modules: map[string]string{
+		"main": `import { fa } from ia;
+import { fb } from ib;
+import { fc } from ic;
+import assert_eq from testing;
+fn main() { fa(); fb(); fc(); assert_eq(1, 1); }`,
+		"ia": `import assert_eq from testing;
+let a = "ia";
+pub fn fa() { println(a); assert_eq(a, "ia"); }
+fn main() {}`,
+		"ib": `import assert_eq from testing;
+let a = "ib";
+pub fn fb() { println(a); assert_eq(a, "ib"); }
+fn main() {}`,
+		"ic": `let a = "ic";
+pub fn fc() { println(a); }
+fn main() {}`,
+	}}},
+	{"runtime-error-trace", Single(`
+fn deep(n: int) -> int { if n == 0 { 1 / n } else { deep(n - 1) + 1 } }
+fn other() -> int { let l = [1, 2]; l[5] }
+fn main() {
+    let f = fn() -> int { 1 };
+    println(f());
+    println(deep(3));
+}`)},
+	{"conflicting-definitions", Single(`
+fn dup() {}
+fn dup() {}
+let g = 1;
+let g = 2;
+type T = int;
+type T = str;
+fn main() { dup(); println(g); }`)},
 	{"type-errors", Single(`
 fn f(a: int) -> str { a }
 fn main() {
